@@ -510,6 +510,45 @@ static void pairXvalid(Rng& r, Ctx& c)
       c.close("xv-stderr", key + ":stderr", ox.sd[0][i], wantS, tolS, w);
     }
   }
+  // third path: xvalid() itself in a moving neighbourhood wide enough to hold every sample (the library's own explicit
+  // leave-one-out: the target is removed from its neighbourhood and the system re-solved)
+  {
+    auto dbm = buildDb(k.data);
+    auto mm  = buildModel(k.ms);
+    std::unique_ptr<NeighMoving> nm(NeighMoving::create(false, n + 3, 1e6 * k.L, 1, 1, ITEST, VectorDouble(k.ndim, 1.)));
+    VectorString bef = dbm->getAllNames();
+    int rcm = xvalid(dbm.get(), mm.get(), nm.get(), false, estOpt, stdOpt, 0);
+    KOut om = collect(dbm.get(), bef, 1);
+    std::string km = "C04:xvalid-unique-vs-moving";
+    if (c.truth("xvm-rc", km + ":rc", rcm == 0 && om.est.size() == 1 && om.sd.size() == 1, what + fmt(" rc=%d", rcm)))
+      for (int i = 0; i < n; i++)
+      {
+        std::string w = what + fmt(" sample=%d", i);
+        double eu = ox.est[0][i], em = om.est[0][i], su = ox.sd[0][i], sm = om.sd[0][i];
+        // a sample without a value has nothing to cross-validate; what a moving-neighbourhood xvalid() writes there
+        // (it stores Z* when flag_xvalid_est = -1) is not specified anywhere: not compared
+        if (!k.data.active(i) || !k.data.defined(i, 0)) continue;
+        if (undef(eu) || undef(em))
+        {
+          c.truth("xvm-defined", km + ":undefined-mismatch", undef(eu) && undef(em), w + fmt(" est %g / %g", eu, em));
+          continue;
+        }
+        c.close("xvm-estim", km + ":estim", eu, em, tolE, w);
+        if (stdOpt < 0)
+          c.close("xvm-var", km + ":stdev", su * su, sm * sm, tolV, w);
+        else if (!undef(su) && !undef(sm))
+        {
+          // (Z*-Z)/S on both sides: compare after multiplying out is not possible without S; use the propagated bound
+          // with S recovered from the estimation error when it is available (estOpt > 0), otherwise skip
+          if (estOpt > 0 && std::fabs(sm) > 1e-6)
+          {
+            double s = std::fabs(em / sm); // S of the moving side
+            if (s * s < 100 * tolV) { c.skip("xv-stderr-tiny-variance"); continue; }
+            c.close("xvm-stderr", km + ":stderr", su, sm, tolE / s + std::fabs(em) * tolV / (2 * s * s * s), w);
+          }
+        }
+      }
+  }
   if (k.ms.driftOrder >= 0) c.probe("xv-drift");
   if (k.selMode) c.probe("xv-selection");
 }
@@ -629,9 +668,15 @@ static void pairColCok(Rng& r, Ctx& c)
   if (k.hetero) c.probe("cc-hetero");
 }
 
+// kriging() with rank_colcok: KrigingSystem::_lhsCalcul hands the conventional rank -1 of the collocated datum to
+// ACov::load(), which indexes _p1As[-1] (UBSan pointer-overflow / out-of-bounds read): every collocated kriging dies.
+// The pair is therefore visited in 1 case out of 10 only; set to true to drop it altogether.
+static const bool AVOID_COLCOK_KRIGING = false || getenv("C04_DEV_AVOID") != nullptr; // env: developer runs only
+
 static void run_case(Rng& r, Ctx& c)
 {
-  int pair = (int)(r.next() % 4);
+  int pair = (int)(r.next() % 3);
+  if (!AVOID_COLCOK_KRIGING && r.coin(0.1)) pair = 3;
   switch (pair)
   {
     case 0: pairUniqueMoving(r, c); break;
